@@ -134,10 +134,22 @@ func (s *state) unmarshal(data []byte, fixItem fix.Item) error {
 			return fmt.Errorf("could not unmarshal group: %s", err)
 		}
 
-		cnt := noKv.Value.Value().(int)
-		startNoTag := bytes.Index(data, append([]byte(noKv.Key), '='))
-		if startNoTag == -1 {
+		if noKv.Value.IsNull() {
 			return nil
+		}
+
+		cnt := noKv.Value.Value().(int)
+
+		// The count field is looked up the same way scanKeyValue found it:
+		// at the start of data or right after a delimiter.
+		noTagKey := append([]byte(noKv.Key), '=')
+		startNoTag := 0
+		if !bytes.HasPrefix(data, noTagKey) {
+			startNoTag = bytes.Index(data, append([]byte{1}, noTagKey...))
+			if startNoTag == -1 {
+				return nil
+			}
+			startNoTag++
 		}
 
 		startFirstFieldTag := bytes.Index(data[startNoTag:], fix.Delimiter)
